@@ -232,11 +232,18 @@ fn same_text(b: &Flat, a: &Flat) -> bool {
 }
 
 /// `allow_gain`: an unterminated last line may gain its newline — only when the edit put something after it.
-fn seq_equal(b: &[&Flat], a: &[&Flat], allow_gain: bool) -> Result<(), String> {
+/// `gain`: where an unterminated line may gain its newline — `Some(None)` anywhere (paragraph-level appends),
+/// `Some(Some(i))` only at untouched segment `i` (the line a field was appended after), `None` nowhere.
+fn seq_equal(b: &[&Flat], a: &[&Flat], gain: Option<Option<usize>>) -> Result<(), String> {
     if b.len() != a.len() {
         return Err(format!("{} untouched segments before, {} after", b.len(), a.len()));
     }
-    for (x, y) in b.iter().zip(a.iter()) {
+    for (i, (x, y)) in b.iter().zip(a.iter()).enumerate() {
+        let allow_gain = match gain {
+            None => false,
+            Some(None) => true,
+            Some(Some(at)) => at == i,
+        };
         if !(if allow_gain { same_text(x, y) } else { x.kind == y.kind && x.text == y.text }) {
             return Err(format!("untouched segment {:?} became {:?}", x.text, y.text));
         }
@@ -298,7 +305,12 @@ pub fn locality_field(before: &str, after: &str, ord_before: Option<usize>, ord_
     }
     let ob: Vec<&Flat> = b.iter().enumerate().filter(|(i, _)| !touched_b.contains(i)).map(|x| x.1).collect();
     let oa: Vec<&Flat> = a.iter().enumerate().filter(|(i, _)| !touched_a.contains(i)).map(|x| x.1).collect();
-    seq_equal(&ob, &oa, matches!(op, FieldOp::Append { .. }))
+    // an appended field may terminate the line it was put after, and only that line
+    let gain = match (op, touched_a.first()) {
+        (FieldOp::Append { .. }, Some(ia)) if *ia > 0 => Some(Some(*ia - 1)),
+        _ => None,
+    };
+    seq_equal(&ob, &oa, gain)
 }
 
 /// Locality for paragraph-level edits: every other paragraph's text and every comment byte-identical
@@ -353,7 +365,7 @@ fn locality_para(before: &str, after: &str, removing: bool, removed_ord: Option<
         let r = (|| -> Result<(), String> {
             let nb: Vec<&Flat> = b.iter().enumerate().filter(|(i, f)| f.kind != 'b' && !gone.contains(i)).map(|x| x.1).collect();
             let na: Vec<&Flat> = a.iter().filter(|f| f.kind != 'b').collect();
-            seq_equal(&nb, &na, true)?;
+            seq_equal(&nb, &na, Some(None))?;
             // blank lines may only change next to the inserted / removed paragraph: everything before
             // the first change and after the last change lines up, the changed region is blank lines only
             let bt: Vec<&Flat> = b.iter().enumerate().filter(|(i, _)| !gone.contains(i)).map(|x| x.1).collect();
